@@ -88,6 +88,9 @@ def run(ctx):
     for o in kept:
         o.rule = 'C14.R4'
     ctx.obs[before:] = kept
+    # ---- R4 (consumers): the parsed value is a number in the base units of the spelling used; wherever a consumer
+    # compares or adds it, the other operand must be in those same units for every spelling
+    consumers(ctx, 'C14.R4')
     # ---- R6 a parsed quantity whose unit is discarded must not be relabelled
     for q in ('Container.__init__', 'Plate.__init__'):
         sc = scan_ctor(ctx, q)
@@ -103,6 +106,36 @@ def run(ctx):
                            'string; suffix candidate lists must be unambiguous; a capacity string must not have its '
                            'unit discarded. Not decided: arbitrary malformed input beyond the listed shapes.',
             'exhaustive': False}
+
+
+def consumers(ctx, rule):
+    """Statements of the consumers of parse_concentration that read one of its results: additions, subtractions and
+    comparisons there must be unit-consistent for every numerator / denominator pair (engine U)."""
+    from . import c12, targets
+    model = ctx.model
+    n = 0
+    for q, mk in (('Container.create_solution_from', lambda: c12._without_enzyme_solute(ctx, None)),
+                  ('Container.dilute', lambda: targets.scan(ctx, 'Container.dilute'))):
+        fi = model.func(q)
+        names = set()
+        for st in ast.walk(fi.node):
+            if isinstance(st, ast.Assign) and isinstance(st.value, ast.Call) and \
+                    isinstance(st.value.func, ast.Attribute) and st.value.func.attr == 'parse_concentration':
+                for t in st.targets:
+                    names |= {x.id for x in ast.walk(t) if isinstance(x, ast.Name)}
+        if not names:
+            continue        # the consumer hands the string on (to calculate_concentration_ratio, checked as a cell table)
+        lines = set()
+        for st in ast.walk(fi.node):
+            if isinstance(st, ast.stmt) and not isinstance(st, (ast.FunctionDef, ast.If, ast.For, ast.While, ast.With, ast.Try)):
+                if any(isinstance(x, ast.Name) and x.id in names and isinstance(x.ctx, ast.Load) for x in ast.walk(st)):
+                    lines |= set(range(st.lineno, (st.end_lineno or st.lineno) + 1))
+            elif isinstance(st, (ast.If, ast.While)):
+                if any(isinstance(x, ast.Name) and x.id in names for x in ast.walk(st.test)):
+                    lines |= set(range(st.test.lineno, (st.test.end_lineno or st.test.lineno) + 1))
+        n += uscan.report_sinks(ctx, lambda cat: rule if cat in ('add-units', 'compare-units') else None, mk(),
+                                line_filter=lambda ln, lines=lines: ln in lines)
+    ctx.count('consumer_sites_of_parsed_concentration', n)
 
 
 def _literal_strings(n_):
